@@ -486,34 +486,14 @@ theorem rsEq_iff_keyEq {u v : Uri} (hu : u.canon = true) (hv : v.canon = true) :
     rsEq u v = keyEq u v := by
   obtain ⟨⟨sc, sv⟩, ⟨hc, hv'⟩, m, segs, dir⟩ := u
   obtain ⟨⟨sc2, sv2⟩, ⟨hc2, hv2⟩, m2, segs2, dir2⟩ := v
-  simp only [Uri.canon, Bool.and_eq_true, beq_iff_eq, Bool.or_eq_true, bne_iff_ne, ne_eq] at hu hv
-  obtain ⟨rfl, hu2⟩ := hu
-  obtain ⟨rfl, hv3⟩ := hv
-  simp only [rsEq, keyEq, key, CiName.eqIgnoreCase, CiName.hasUpper, CiName.lower, rsyncLower]
+  simp only [Uri.canon, beq_iff_eq] at hu hv
+  subst hu; subst hv
+  simp only [rsEq, keyEq, key, CiName.eqIgnoreCase, CiName.lower, rsyncLower]
   rw [Bool.eq_iff_iff]
-  have assoc : ∀ (a b c d : Prop), (((a ∧ b) ∧ c) ∧ d ↔ a ∧ b ∧ c ∧ d) := by
-    intro a b c d; constructor
-    · rintro ⟨⟨⟨ha, hb⟩, hc⟩, hd⟩; exact ⟨ha, hb, hc, hd⟩
-    · rintro ⟨ha, hb, hc, hd⟩; exact ⟨⟨⟨ha, hb⟩, hc⟩, hd⟩
-  by_cases h1 : hv' = 0 <;> by_cases h2 : hv2 = 0
-  · subst h1; subst h2
-    have hsv : sv = 0 := by rcases hu2 with h | h; exact h; exact absurd rfl h
-    have hsv2 : sv2 = 0 := by rcases hv3 with h | h; exact h; exact absurd rfl h
-    subst hsv; subst hsv2
-    simp
-    exact assoc _ _ _ _
-  · subst h1
-    have hsv : sv = 0 := by rcases hu2 with h | h; exact h; exact absurd rfl h
-    subst hsv
-    simp [h2]
-    exact assoc _ _ _ _
-  · subst h2
-    have hsv2 : sv2 = 0 := by rcases hv3 with h | h; exact h; exact absurd rfl h
-    subst hsv2
-    simp [h1]
-    exact assoc _ _ _ _
-  · simp [h1, h2]
-    exact assoc _ _ _ _
+  simp
+  constructor
+  · rintro ⟨⟨⟨ha, hb⟩, hc⟩, hd⟩; exact ⟨ha, hb, hc, hd⟩
+  · rintro ⟨ha, hb, hc, hd⟩; exact ⟨⟨⟨ha, hb⟩, hc⟩, hd⟩
 
 /-- All URIs of the elements are canonical. -/
 def AllCanon (l : List Elem) : Prop := ∀ e ∈ l, e.uri.canon = true
@@ -657,32 +637,18 @@ theorem hget?_hset_ne {ν} (m : List (Handle × ν)) (h q : Handle) (v : ν) (hq
 /-! ## keys -/
 
 theorem key_key (u : Uri) : key (key u) = key u := by
-  by_cases h : u.host.hasUpper = true
-  · have h1 : key u = { u with scheme := rsyncLower, host := u.host.lower } := by
-      unfold key; rw [if_pos h]
-    rw [h1]
-    unfold key
-    have : ({ u with scheme := rsyncLower, host := u.host.lower } : Uri).host.hasUpper = false := by
-      simp [CiName.hasUpper, CiName.lower]
-    rw [if_neg (by simp [this])]
-  · have h1 : key u = u := by unfold key; rw [if_neg h]
-    rw [h1, h1]
+  simp [key, CiName.lower]
 
-theorem canon_key {u : Uri} (h : u.canon = true) : (key u).canon = true := by
-  unfold key
-  by_cases hu : u.host.hasUpper = true
-  · simp [hu, Uri.canon, rsyncLower]
-  · simp [hu, h]
+theorem canon_key {u : Uri} (_h : u.canon = true) : (key u).canon = true := by
+  simp [key, Uri.canon, rsyncLower]
 
 theorem inJail_key (jail : Uri) {u : Uri} (hc : u.canon = true) :
     inJail jail (key u) = inJail jail u := by
   have hs : u.scheme.canon = "rsync" := by
-    simp only [Uri.canon, Bool.and_eq_true, beq_iff_eq] at hc
-    exact hc.1
-  unfold key
-  by_cases hu : u.host.hasUpper = true
-  · simp [hu, inJail, eqModule, CiName.eqIgnoreCase, CiName.lower, rsyncLower, hs]
-  · simp [hu]
+    simp only [Uri.canon, beq_iff_eq] at hc
+    exact hc
+  simp only [key, inJail, eqModule, CiName.eqIgnoreCase, CiName.lower, rsyncLower, hs]
+  rfl
 
 /-! ## well-formed object maps -/
 
@@ -1304,9 +1270,7 @@ theorem SInv.update {s : Server} (hi : SInv s) (rnd : Nat) : SInv (s.update rnd)
   · exact hi
   · split
     · exact hi
-    · cases findTruncateAge s.cfg.minNr s.cfg.maxNr s.ages with
-      | none => exact hi
-      | some t => exact ⟨hi.r.applyUpdated t rnd, hi.access, hi.accessNodup⟩
+    · exact ⟨hi.r.applyUpdated _ rnd, hi.access, hi.accessNodup⟩
 
 theorem SInv.step {s : Server} (hi : SInv s) {op : Op} (hok : OpOk op) : SInv (s.step op) := by
   cases op with
@@ -1406,9 +1370,7 @@ theorem update_rrdp_run (s : Server) (rnd : Nat) :
   · exact ⟨[], rfl, rfl, rfl⟩
   · split
     · exact ⟨[], rfl, rfl, rfl⟩
-    · cases findTruncateAge s.cfg.minNr s.cfg.maxNr s.ages with
-      | none => exact ⟨[], rfl, rfl, rfl⟩
-      | some t => exact ⟨[.update t rnd], rfl, rfl, rfl⟩
+    · exact ⟨[.update (findTruncateAge s.cfg.minNr s.cfg.maxNr s.ages) rnd], rfl, rfl, rfl⟩
 
 theorem deleteFiles_rrdp_run (r : Rrdp) (del : Uri) :
     ∃ rops : List RrdpOp, r.deleteFiles del = r.run rops := by
@@ -1545,48 +1507,41 @@ theorem contigFrom_get : ∀ (n : Nat) (l : List DeltaRec), contigFrom n l →
 /-! ## retention by number -/
 
 theorem truncLoop_le (minNr maxNr : Nat) (hmin : minNr + 1 ≤ maxNr) :
-    ∀ (l : List (Bool × Bool)) (keep t : Nat), keep ≤ maxNr - 1 →
+    ∀ (l : List (Bool × Bool)) (keep : Nat), keep ≤ maxNr - 1 →
       (∀ j a, l[j]? = some a → maxNr - 1 ≤ keep + j → a.1 = false) →
-      truncLoop minNr maxNr keep l = some t → t ≤ maxNr - 1 := by
+      truncLoop minNr maxNr keep l ≤ maxNr - 1 := by
   intro l
   induction l with
   | nil =>
-    intro keep t hk _ h
-    simp only [truncLoop, Option.some.injEq] at h
-    omega
+    intro keep hk _
+    simp only [truncLoop]
+    exact hk
   | cons a rest ih =>
-    intro keep t hk hy h
+    intro keep hk hy
     obtain ⟨young, old⟩ := a
-    simp only [truncLoop] at h
+    simp only [truncLoop]
     have hy0 : maxNr - 1 ≤ keep → young = false := fun hle => hy 0 (young, old) rfl (by omega)
     have hyrest : ∀ j a, rest[j]? = some a → maxNr - 1 ≤ (keep + 1) + j → a.1 = false := by
       intro j a hj hle
       exact hy (j + 1) a (by simpa using hj) (by omega)
     by_cases hc : (decide (keep < minNr) || young) = true
-    · rw [if_pos hc] at h
+    · rw [if_pos hc]
       have hlt : keep < maxNr - 1 := by
         apply Nat.lt_of_le_of_ne hk
         intro heq
         have hyf := hy0 (by omega)
         simp only [hyf, Bool.or_false, decide_eq_true_eq] at hc
         omega
-      exact ih (keep + 1) t (by omega) hyrest h
-    · rw [if_neg hc] at h
-      have hmax : (maxNr == 0) = false := by
-        have : maxNr ≠ 0 := by omega
-        simp [this]
-      rw [hmax] at h
-      simp only [Bool.false_eq_true, ↓reduceIte] at h
+      exact ih (keep + 1) (by omega) hyrest
+    · rw [if_neg hc]
       by_cases hb : (keep == maxNr - 1 || old) = true
-      · rw [if_pos hb] at h
-        simp only [Option.some.injEq] at h
-        omega
-      · rw [if_neg hb] at h
+      · rw [if_pos hb]; exact hk
+      · rw [if_neg hb]
         have hne : keep ≠ maxNr - 1 := by
           intro heq
           apply hb
           simp [heq]
-        exact ih (keep + 1) t (by omega) hyrest h
+        exact ih (keep + 1) (by omega) hyrest
 
 theorem keepBySize_le (limit : Nat) : ∀ (l : List DeltaRec) (total : Nat),
     keepBySize limit total l ≤ l.length := by
@@ -2131,11 +2086,8 @@ theorem update_reach {s : Server} (hi : SInv s) (hd : KeysDisjoint s.rrdp) (rnd 
   · exact ⟨Reach.refl _, hd, rfl⟩
   · split
     · exact ⟨Reach.refl _, hd, rfl⟩
-    · cases findTruncateAge s.cfg.minNr s.cfg.maxNr s.ages with
-      | none => exact ⟨Reach.refl _, hd, rfl⟩
-      | some t =>
-        exact ⟨Reach.step (Reach.refl _) (Small.update t rnd hi.r hd),
-          hd.applyUpdated hi.r t rnd, rfl⟩
+    · exact ⟨Reach.step (Reach.refl _) (Small.update _ rnd hi.r hd),
+        hd.applyUpdated hi.r _ rnd, rfl⟩
 
 def Op.isReset : Op → Bool
   | .reset _ _ => true
@@ -2242,7 +2194,7 @@ theorem update_base (s : Server) (rnd : Nat) : (s.update rnd).1.base = s.base :=
   · rfl
   · split
     · rfl
-    · cases findTruncateAge s.cfg.minNr s.cfg.maxNr s.ages <;> rfl
+    · rfl
 
 theorem Server.step_base (s : Server) (op : Op) : (s.step op).base = s.base := by
   cases op with
@@ -2562,17 +2514,8 @@ theorem apply_saves (files : List (List String × Content)) (hf : FilesFunctiona
   | cons m ms ih =>
     intro hall fs t0 h0 hok
     obtain ⟨p, hp, rfl⟩ := hall m (by simp)
-    -- one save
-    have hsave : saveOver (t0.get? p.1) p.2 = .clean p.2 := by
-      cases hg : t0.get? p.1 with
-      | none => rfl
-      | some r =>
-        obtain ⟨c, hc, rfl⟩ := hok p.1 r hg
-        have : c = p.2 := hf (p.1, c) hc p hp rfl
-        subst this
-        simp [saveOver]
     have hstep : fs.apply (.save tmp p.1 p.2) = some (fs.set tmp (t0.set p.1 (.clean p.2))) := by
-      simp only [RsyncFs.apply, h0, hsave]
+      simp only [RsyncFs.apply, h0]
     have h1 : (fs.set tmp (t0.set p.1 (.clean p.2))).get? tmp = some (t0.set p.1 (.clean p.2)) := by
       rw [RsyncFs.get?_set]; simp
     have hok1 : TreeOk files (t0.set p.1 (.clean p.2)) := by
@@ -2641,17 +2584,21 @@ theorem tree_eq_expected {files : List (List String × Content)}
       simp at this
 
 /-- The three phases of `RsyncdStore::write`. -/
+def rsyncHead (fs : RsyncFs) (serial : Nat) : List RMut :=
+  (if (fs.get? (.tmp serial)).isSome then [.removeAll (.tmp serial)] else []) ++ [.mkdir (.tmp serial)]
+
 def rsyncSaves (base : Uri) (serial : Nat) (objs : Objs) : List RMut :=
   (rsyncFiles base objs).map (fun p => .save (.tmp serial) p.1 p.2)
 
 def rsyncTail (fs : RsyncFs) (serial : Nat) : List RMut :=
-  (if (fs.get? .current).isSome then [.rename .current .old] else []) ++
+  (if (fs.get? .old).isSome then [.removeAll .old] else []) ++
+    (if (fs.get? .current).isSome then [.rename .current .old] else []) ++
     [.rename (.tmp serial) .current] ++
-    (if ((fs.get? .current).isSome || (fs.get? .old).isSome) then [.removeAll .old] else [])
+    (if (fs.get? .current).isSome then [.removeAll .old] else [])
 
 theorem rsyncPlan_eq (fs : RsyncFs) (base : Uri) (serial : Nat) (objs : Objs) :
     rsyncPlan fs base serial objs =
-      [(true, [.mkdir (.tmp serial)]), (false, rsyncSaves base serial objs),
+      [(true, rsyncHead fs serial), (false, rsyncSaves base serial objs),
        (true, rsyncTail fs serial)] := rfl
 
 theorem rsyncTail_ne_nil (fs : RsyncFs) (serial : Nat) : rsyncTail fs serial ≠ [] := by
@@ -2661,13 +2608,13 @@ theorem rsyncTail_ne_nil (fs : RsyncFs) (serial : Nat) : rsyncTail fs serial ≠
   simp only [List.length_append, List.length_cons, List.length_nil] at this
   omega
 
-/-- A complete run of the rsync writer: create the directory, save all files in some order,
-then the renames and the removal. -/
+/-- A complete run of the rsync writer: clear and create the temporary directory, save all files
+in some order, then the removal of a left-over `old`, the renames and the removal of `old`. -/
 theorem rsync_complete_shape {fs : RsyncFs} {base : Uri} {serial : Nat} {objs : Objs}
     {log : List Sig} {ms : List RMut} {rest : List (Bool × List RMut)}
     (hm : matchLog RMut.sig (rsyncPlan fs base serial objs) log = some (ms, rest))
     (hd : planDone rest = true) :
-    ∃ ss, ms = [.mkdir (.tmp serial)] ++ ss ++ rsyncTail fs serial ∧
+    ∃ ss, ms = rsyncHead fs serial ++ ss ++ rsyncTail fs serial ∧
       (∀ m ∈ ss, m ∈ rsyncSaves base serial objs) ∧ (∀ m ∈ rsyncSaves base serial objs, m ∈ ss) := by
   rw [rsyncPlan_eq] at hm
   have htail := rsyncTail_ne_nil fs serial
@@ -2680,7 +2627,7 @@ theorem rsync_complete_shape {fs : RsyncFs} {base : Uri} {serial : Nat} {objs : 
     | cons a t => simp
   rcases matchLog_ordered RMut.sig _ _ _ _ _ hm with ⟨n, _, _, hrest⟩ | ⟨cs, log1, rfl, hcs⟩
   · rw [hrest] at hd
-    have := notDone [(true, [RMut.mkdir (.tmp serial)].drop n), (false, rsyncSaves base serial objs)]
+    have := notDone [(true, (rsyncHead fs serial).drop n), (false, rsyncSaves base serial objs)]
     simp only [List.cons_append, List.nil_append] at this
     rw [this] at hd; cases hd
   · rcases matchLog_unordered RMut.sig _ _ _ rfl _ _ _ hcs with
@@ -2712,36 +2659,73 @@ theorem applyAll_cons_none {fs : RsyncFs} {m : RMut} (h : fs.apply m = none)
 
 theorem apply_removeAll (fs : RsyncFs) (n : Top) : fs.apply (.removeAll n) = some (fs.remove n) := rfl
 
-/-- The renames and the removal, on a directory where `tmp-<serial>` holds the new tree and
-`current` and a non-empty `old` are not both present. -/
+/-- Clearing and creating the temporary directory: afterwards it exists and is empty, whatever
+was there before. -/
+theorem rsync_head_ok (fs : RsyncFs) (serial : Nat) :
+    ∃ fs1, fs.applyAll (rsyncHead fs serial) = (fs1, true) ∧ fs1.get? (.tmp serial) = some [] ∧
+      ∀ n, n ≠ .tmp serial → fs1.get? n = fs.get? n := by
+  unfold rsyncHead
+  cases ht : fs.get? (.tmp serial) with
+  | none =>
+    simp only [Option.isSome_none, Bool.false_eq_true, ↓reduceIte, List.nil_append]
+    refine ⟨fs.set (.tmp serial) [], ?_, ?_, ?_⟩
+    · have : fs.apply (.mkdir (.tmp serial)) = some (fs.set (.tmp serial) []) := by
+        simp only [RsyncFs.apply, ht]
+      rw [applyAll_cons_some this]; rfl
+    · rw [RsyncFs.get?_set]; simp
+    · intro n hn; rw [RsyncFs.get?_set]; simp [hn]
+  | some t =>
+    simp only [Option.isSome_some, ↓reduceIte, List.cons_append, List.nil_append]
+    refine ⟨(fs.remove (.tmp serial)).set (.tmp serial) [], ?_, ?_, ?_⟩
+    · have h2 : (fs.remove (.tmp serial)).apply (.mkdir (.tmp serial)) =
+          some ((fs.remove (.tmp serial)).set (.tmp serial) []) := by
+        have : (fs.remove (.tmp serial)).get? (.tmp serial) = none := by
+          rw [RsyncFs.get?_remove]; simp
+        simp only [RsyncFs.apply, this]
+      rw [applyAll_cons_some (apply_removeAll _ _), applyAll_cons_some h2]; rfl
+    · rw [RsyncFs.get?_set]; simp
+    · intro n hn; rw [RsyncFs.get?_set, RsyncFs.get?_remove]; simp [hn]
+
+/-- The removal of a left-over `old`, the renames and the final removal, on a directory where
+`tmp-<serial>` holds the new tree: they succeed whatever `current` and `old` were. -/
 theorem rsync_tail_ok {fs fs2 : RsyncFs} {serial : Nat} {t : Tree}
     (htmp : fs2.get? (.tmp serial) = some t)
-    (hoth : ∀ n, n ≠ .tmp serial → fs2.get? n = fs.get? n)
-    (hold : fs.get? .current = none ∨ fs.get? .old = none ∨ fs.get? .old = some []) :
+    (hoth : ∀ n, n ≠ .tmp serial → fs2.get? n = fs.get? n) :
     ∃ fs5, fs2.applyAll (rsyncTail fs serial) = (fs5, true) ∧
       fs5.get? .current = some t ∧ fs5.get? .old = none ∧ fs5.get? (.tmp serial) = none := by
   have hc2 : fs2.get? .current = fs.get? .current := hoth _ (by simp)
-  have ho2 : fs2.get? .old = fs.get? .old := hoth _ (by simp)
+  -- first step: the left-over `old` goes
+  obtain ⟨fsA, hA, hAold, hAoth⟩ : ∃ fsA : RsyncFs,
+      (∀ l : List RMut, fs2.applyAll ((if (fs.get? .old).isSome then [RMut.removeAll .old] else []) ++ l) =
+        fsA.applyAll l) ∧ fsA.get? .old = none ∧ ∀ n, n ≠ .old → fsA.get? n = fs2.get? n := by
+    cases ho : fs.get? .old with
+    | none =>
+      refine ⟨fs2, fun l => by simp [ho], ?_, fun _ _ => rfl⟩
+      rw [hoth _ (by simp)]; exact ho
+    | some to =>
+      refine ⟨fs2.remove .old, fun l => ?_, ?_, fun n hn => ?_⟩
+      · simp only [Option.isSome_some, ↓reduceIte, List.cons_append, List.nil_append]
+        exact applyAll_cons_some (apply_removeAll _ _) l
+      · rw [RsyncFs.get?_remove]; simp
+      · rw [RsyncFs.get?_remove]; simp [hn]
+  have hAtmp : fsA.get? (.tmp serial) = some t := by rw [hAoth _ (by simp)]; exact htmp
+  have hAcur : fsA.get? .current = fs.get? .current := by rw [hAoth _ (by simp)]; exact hc2
   unfold rsyncTail
+  simp only [List.append_assoc]
+  rw [hA]
   cases hcur : fs.get? .current with
   | some tc =>
-    simp only [Option.isSome_some, ↓reduceIte, Bool.true_or, List.cons_append, List.nil_append]
-    have holdok : fs.get? .old = none ∨ fs.get? .old = some [] := by
-      rcases hold with h | h | h
-      · rw [hcur] at h; cases h
-      · exact Or.inl h
-      · exact Or.inr h
-    have h1 : fs2.apply (.rename .current .old) = some ((fs2.remove .current).set .old tc) := by
-      simp only [RsyncFs.apply, hc2, hcur, ho2]
-      rcases holdok with h | h <;> rw [h]
-    have h2 : ((fs2.remove .current).set .old tc).apply (.rename (.tmp serial) .current) =
-        some ((((fs2.remove .current).set .old tc).remove (.tmp serial)).set .current t) := by
-      have ha : ((fs2.remove .current).set .old tc).get? (.tmp serial) = some t := by
-        rw [RsyncFs.get?_set, RsyncFs.get?_remove]; simp [htmp]
-      have hb : ((fs2.remove .current).set .old tc).get? .current = none := by
+    simp only [Option.isSome_some, ↓reduceIte, List.cons_append, List.nil_append]
+    have h1 : fsA.apply (.rename .current .old) = some ((fsA.remove .current).set .old tc) := by
+      simp only [RsyncFs.apply, hAcur, hcur, hAold]
+    have h2 : ((fsA.remove .current).set .old tc).apply (.rename (.tmp serial) .current) =
+        some ((((fsA.remove .current).set .old tc).remove (.tmp serial)).set .current t) := by
+      have ha : ((fsA.remove .current).set .old tc).get? (.tmp serial) = some t := by
+        rw [RsyncFs.get?_set, RsyncFs.get?_remove]; simp [hAtmp]
+      have hb : ((fsA.remove .current).set .old tc).get? .current = none := by
         rw [RsyncFs.get?_set, RsyncFs.get?_remove]; simp
       simp only [RsyncFs.apply, ha, hb]
-    refine ⟨((((fs2.remove .current).set .old tc).remove (.tmp serial)).set .current t).remove .old,
+    refine ⟨((((fsA.remove .current).set .old tc).remove (.tmp serial)).set .current t).remove .old,
       ?_, ?_, ?_, ?_⟩
     · rw [applyAll_cons_some h1, applyAll_cons_some h2, applyAll_cons_some (apply_removeAll _ _)]
       rfl
@@ -2749,26 +2733,15 @@ theorem rsync_tail_ok {fs fs2 : RsyncFs} {serial : Nat} {t : Tree}
     · rw [RsyncFs.get?_remove]; simp
     · rw [RsyncFs.get?_remove, RsyncFs.get?_set, RsyncFs.get?_remove]; simp
   | none =>
-    simp only [Option.isSome_none, Bool.false_eq_true, ↓reduceIte, Bool.false_or,
-      List.nil_append, List.cons_append]
-    have h1 : fs2.apply (.rename (.tmp serial) .current) =
-        some ((fs2.remove (.tmp serial)).set .current t) := by
-      simp only [RsyncFs.apply, htmp, hc2, hcur]
-    cases hol : fs.get? .old with
-    | none =>
-      simp only [Option.isSome_none, Bool.false_eq_true, ↓reduceIte]
-      refine ⟨(fs2.remove (.tmp serial)).set .current t, ?_, ?_, ?_, ?_⟩
-      · rw [applyAll_cons_some h1]; rfl
-      · rw [RsyncFs.get?_set]; simp
-      · rw [RsyncFs.get?_set, RsyncFs.get?_remove]; simp [ho2, hol]
-      · rw [RsyncFs.get?_set, RsyncFs.get?_remove]; simp
-    | some to =>
-      simp only [Option.isSome_some, ↓reduceIte]
-      refine ⟨((fs2.remove (.tmp serial)).set .current t).remove .old, ?_, ?_, ?_, ?_⟩
-      · rw [applyAll_cons_some h1, applyAll_cons_some (apply_removeAll _ _)]; rfl
-      · rw [RsyncFs.get?_remove, RsyncFs.get?_set]; simp
-      · rw [RsyncFs.get?_remove]; simp
-      · rw [RsyncFs.get?_remove, RsyncFs.get?_set, RsyncFs.get?_remove]; simp
+    simp only [Option.isSome_none, Bool.false_eq_true, ↓reduceIte, List.nil_append]
+    have h1 : fsA.apply (.rename (.tmp serial) .current) =
+        some ((fsA.remove (.tmp serial)).set .current t) := by
+      simp only [RsyncFs.apply, hAtmp, hAcur, hcur]
+    refine ⟨(fsA.remove (.tmp serial)).set .current t, ?_, ?_, ?_, ?_⟩
+    · rw [List.append_nil, applyAll_cons_some h1]; rfl
+    · rw [RsyncFs.get?_set]; simp
+    · rw [RsyncFs.get?_set, RsyncFs.get?_remove]; simp [hAold]
+    · rw [RsyncFs.get?_set, RsyncFs.get?_remove]; simp
 
 /-- The top-level directories a mutation can change. -/
 def RMut.touches : RMut → Top → Bool
@@ -3036,14 +3009,8 @@ structure SafeSet (fs : RrdpFs) (S : List (Path × DataFile)) : Prop where
   safe : ∀ e ∈ S, ∀ c, fs.get? e.1 = some c → c = .data e.2
   func : ∀ e ∈ S, ∀ e' ∈ S, e.1 = e'.1 → e.2 = e'.2
 
-theorem writeOver_data (old : Option FileC) (x : DataFile) : writeOver old (.data x) = .data x := by
-  cases old with
-  | none => rfl
-  | some c => cases c <;> rfl
-
 theorem apply_create_data (fs : RrdpFs) (p : Path) (x : DataFile) :
-    fs.apply (.create p (.data x)) = fs.set p (.data x) := by
-  simp only [RrdpFs.apply, writeOver_data]
+    fs.apply (.create p (.data x)) = fs.set p (.data x) := rfl
 
 /-- Writing data files of a safe set: nothing that was there changes, what is written is
 there. -/
@@ -3151,8 +3118,6 @@ def RefShape (n : Notif) : Prop :=
 
 /-- What `update_rrdp_files` needs of the files it finds. -/
 structure RrdpPre (r : Rrdp) (fs : RrdpFs) : Prop where
-  /-- no left-over `new-notification.xml` (otherwise F-C11-3) -/
-  stale : fs.get? newNotifPath = none
   shape : ∀ n, fs.notification = some n → RefShape n
   /-- the files are not from the future -/
   past : ∀ n, fs.notification = some n → n.session = r.session → ∀ d ∈ n.deltas, d.1 ≤ r.serial
@@ -3465,7 +3430,7 @@ theorem notification_of_get? {fs : RrdpFs} {n : Notif} (h : fs.notification = so
 theorem after_data_writes {r : Rrdp} {fs : RrdpFs} (hpre : RrdpPre r fs)
     (hc : fs.consistent = true) (dw : List (Path × DataFile)) (hsub : ∀ e ∈ dw, e ∈ safeSetOf r) :
     let fs1 := fs.applyAll (dw.map (fun e => Mut.create e.1 (.data e.2)))
-    fs1.consistent = true ∧ fs1.get? newNotifPath = none ∧
+    fs1.consistent = true ∧ fs1.get? newNotifPath = fs.get? newNotifPath ∧
     fs1.get? notifPath = fs.get? notifPath ∧
     (∀ q c, fs.get? q = some c → fs1.get? q = some c) ∧
     (∀ e ∈ dw, fs1.get? e.1 = some (.data e.2)) := by
@@ -3477,7 +3442,7 @@ theorem after_data_writes {r : Rrdp} {fs : RrdpFs} (hpre : RrdpPre r fs)
     omega
   have h1 := hoth notifPath (hnn _ rfl)
   have h2 := hoth newNotifPath (hnn _ rfl)
-  refine ⟨?_, by rw [h2]; exact hpre.stale, h1, hkeep, hwr⟩
+  refine ⟨?_, h2, h1, hkeep, hwr⟩
   rw [consistent_iff] at hc ⊢
   rcases hc with hc | ⟨n, hn, hs, hd⟩
   · exact Or.inl (by rw [h1]; exact hc)
@@ -3548,8 +3513,10 @@ theorem rrdp_cut_consistent {r : Rrdp} {fs : RrdpFs} (hpre : RrdpPre r fs)
     rcases hc with hc | ⟨n, hn, _⟩
     · rw [hc] at hx; cases hx
     · rw [hn] at hx; cases hx
-  have hstep2 : fs1.apply (.create newNotifPath (.notif new)) = fs1.set newNotifPath (.notif new) := by
-    simp only [RrdpFs.apply, hnn1, writeOver]
+  have hstep2 : fs1.apply (.create newNotifPath (.notif new)) = fs1.set newNotifPath (.notif new) := rfl
+  have hlen4 : ∀ (p : Path), p.length = 4 → p ≠ newNotifPath ∧ p ≠ notifPath := by
+    intro p hp
+    constructor <;> (intro he; rw [he] at hp; simp [newNotifPath, notifPath] at hp)
   have hget2 : ∀ p, p ≠ newNotifPath →
       (fs1.set newNotifPath (.notif new)).get? p = fs1.get? p := by
     intro p hp; rw [RrdpFs.get?_set]; simp [hp]
@@ -3558,15 +3525,17 @@ theorem rrdp_cut_consistent {r : Rrdp} {fs : RrdpFs} (hpre : RrdpPre r fs)
     have hne : notifPath ≠ newNotifPath := by decide
     rcases hc1 with h | ⟨n, hn, hs, hd⟩
     · exact Or.inl (by rw [hget2 _ hne]; exact h)
-    · refine Or.inr ⟨n, by rw [hget2 _ hne]; exact hn, ?_, ?_⟩
+    · have hnot : fs.notification = some n := by
+        unfold RrdpFs.notification; rw [← hnp1, hn]
+      obtain ⟨⟨rnd, hsp⟩, hdp⟩ := hpre.shape n hnot
+      refine Or.inr ⟨n, by rw [hget2 _ hne]; exact hn, ?_, ?_⟩
       · rw [refOk_iff] at hs ⊢
-        rw [hget2]; exact hs
-        intro he; rw [he, hnn1] at hs; cases hs
+        rw [hget2 _ (hlen4 _ (by rw [hsp]; rfl)).1]; exact hs
       · intro d hdm
         have := hd d hdm
+        obtain ⟨rnd', hdpath⟩ := hdp d hdm
         rw [refOk_iff] at this ⊢
-        rw [hget2]; exact this
-        intro he; rw [he, hnn1] at this; cases this
+        rw [hget2 _ (hlen4 _ (by rw [hdpath]; rfl)).1]; exact this
   have hstep3 : (fs1.set newNotifPath (.notif new)).apply (.rename newNotifPath notifPath) =
       ((fs1.set newNotifPath (.notif new)).remove newNotifPath).set notifPath (.notif new) := by
     have : (fs1.set newNotifPath (.notif new)).get? newNotifPath = some (.notif new) := by
@@ -3579,11 +3548,14 @@ theorem rrdp_cut_consistent {r : Rrdp} {fs : RrdpFs} (hpre : RrdpPre r fs)
     rw [← hfs3, RrdpFs.get?_set, RrdpFs.get?_remove, RrdpFs.get?_set]; simp [h1, h2]
   have hnotif3 : fs3.get? notifPath = some (.notif new) := by
     rw [← hfs3, RrdpFs.get?_set]; simp
-  have hdata3 : ∀ p x, fs1.get? p = some (.data x) → fs3.get? p = some (.data x) := by
-    intro p x hpx
-    rw [hget3 p]; exact hpx
-    · intro he; rw [he, hnn1] at hpx; cases hpx
-    · intro he; rw [he] at hpx; exact hnotdata x hpx
+  have hdata3 : ∀ p x, p.length = 4 → fs1.get? p = some (.data x) → fs3.get? p = some (.data x) := by
+    intro p x hp hpx
+    rw [hget3 p (hlen4 p hp).1 (hlen4 p hp).2]; exact hpx
+  have hdlen : ∀ x ∈ new.deltas, x.2.path.length = 4 := by
+    intro x hx
+    rw [← hnew] at hx
+    obtain ⟨⟨rnd, hpath⟩, _, _⟩ := newNotification_delta_shape hpre hx
+    rw [hpath]; rfl
   have hsnapref : new.snap = ⟨snapshotPath r, snapshotFile r⟩ := by rw [← hnew]; rfl
   have hrefs3 : ∀ (fs' : RrdpFs), fs'.get? notifPath = some (.notif new) →
       fs'.get? (snapshotPath r) = some (.data (snapshotFile r)) →
@@ -3594,7 +3566,7 @@ theorem rrdp_cut_consistent {r : Rrdp} {fs : RrdpFs} (hpre : RrdpPre r fs)
     · rw [refOk_iff, hsnapref]; exact h2
     · intro d hd; rw [refOk_iff]; exact h3 d hd
   have hc3 : fs3.consistent = true :=
-    hrefs3 fs3 hnotif3 (hdata3 _ _ hsnap1) (fun x hx => hdata3 _ _ (hdel1 x hx))
+    hrefs3 fs3 hnotif3 (hdata3 _ _ rfl hsnap1) (fun x hx => hdata3 _ _ (hdlen x hx) (hdel1 x hx))
   -- the writes as one list
   have hwrites : ∀ (l : List Mut),
       fs.applyAll (DW.map (fun e => Mut.create e.1 (.data e.2)) ++ l) = fs1.applyAll l := by
@@ -3701,9 +3673,9 @@ theorem rrdp_cut_consistent {r : Rrdp} {fs : RrdpFs} (hpre : RrdpPre r fs)
             exact this
     apply hrefs3
     · rw [hprot _ (Or.inl rfl)]; exact hnotif3
-    · rw [hprot _ (Or.inr (Or.inl rfl))]; exact hdata3 _ _ hsnap1
+    · rw [hprot _ (Or.inr (Or.inl rfl))]; exact hdata3 _ _ rfl hsnap1
     · intro x hx
       rw [hprot _ (Or.inr (Or.inr ⟨x, hx, rfl⟩))]
-      exact hdata3 _ _ (hdel1 x hx)
+      exact hdata3 _ _ (hdlen x hx) (hdel1 x hx)
 
 end KM.Pubd
